@@ -1383,3 +1383,75 @@ func ruleP22(r *Run) {
 		r.Undec("wire batches in rpc/plugins/reverse", 0, "no range over a slice of tuples found")
 	}
 }
+
+// ---------------------------------------------------------------------------------------------------
+// P23 consecutive poll replies reach the callbacks in order
+
+func init() {
+	register("P23", "the push consumer hands what it polls to the callbacks in the order it polled it: in rpc/plugins/push the loop that polls the broker (it calls the proxy's message function inside a for) does not start the delivery of a reply with `go` - a goroutine per reply lets a later reply overtake an earlier one whose callback is still busy, so the messages of one topic arrive out of acceptance order ([m1 m0] with a slow callback on m0; C19 promises acceptance order per topic). On the unchanged tree the one such statement (`go p.dispatch(topics)` in Prosumer.message) is a KNOWN FINDING: run-confirmed by two independent seeding agents; not repaired because every repair trades the order against something else the callers may rely on (a single ordered dispatcher makes a slow callback delay the next poll, and with it the heartbeat) - a design decision for the maintainers", 1, ruleP23)
+}
+
+func ruleP23(r *Run) {
+	p := r.P
+	pkg := p.Pkg("rpc/plugins/push")
+	if pkg == nil {
+		r.Undec("package rpc/plugins/push", 0, "not found")
+		return
+	}
+	info := pkg.TypesInfo
+	n := 0
+	for _, file := range pkg.Syntax {
+		for _, d := range file.Decls {
+			fd, ok := d.(*ast.FuncDecl)
+			if !ok || fd.Body == nil {
+				continue
+			}
+			ast.Inspect(fd.Body, func(m ast.Node) bool {
+				fs, ok := m.(*ast.ForStmt)
+				if !ok {
+					return true
+				}
+				// the poll: a call of a function-typed field named message inside the loop
+				var reply types.Object
+				ast.Inspect(fs.Body, func(q ast.Node) bool {
+					if as, ok := q.(*ast.AssignStmt); ok && len(as.Rhs) == 1 {
+						if c, ok := ast.Unparen(as.Rhs[0]).(*ast.CallExpr); ok {
+							if fv := fieldOf(info, c.Fun); fv != nil && refName(fv.Name()) == "message" {
+								reply = identObj(info, as.Lhs[0])
+							}
+						}
+					}
+					return true
+				})
+				if reply == nil {
+					return true
+				}
+				n++
+				key := "poll replies delivered in order by " + p.DeclName(fd)
+				bad := token.NoPos
+				ast.Inspect(fs.Body, func(q ast.Node) bool {
+					if g, ok := q.(*ast.GoStmt); ok {
+						for _, a := range g.Call.Args {
+							if identObj(info, a) == reply {
+								bad = g.Pos()
+							}
+						}
+						if fl, ok := ast.Unparen(g.Call.Fun).(*ast.FuncLit); ok && mentionsObj(info, fl.Body, reply) {
+							bad = g.Pos()
+						}
+					}
+					return true
+				})
+				if bad == token.NoPos {
+					r.Ok(key, fs.Pos(), "no goroutine per reply")
+				} else {
+					r.Viol(key, bad, "every reply of the broker is handed to a goroutine of its own: a later reply overtakes an earlier one whose callback is still running, and the messages of a topic reach the subscriber out of acceptance order")
+				}
+				return false
+			})
+		}
+	}
+	if n == 0 {
+		r.Undec("poll loop of rpc/plugins/push", 0, "no for loop that polls through the proxy's message function found")
+	}
+}
